@@ -4,6 +4,7 @@ package core
 
 import (
 	"context"
+	"sync"
 
 	"github.com/Comcast/sheens/match"
 	"github.com/Comcast/sheens/zzverif/verif"
@@ -89,4 +90,33 @@ func VerifC12Race() {
 	for i := 0; i < n; i++ {
 		<-done
 	}
+}
+
+// VerifC12Concurrent: two machines walked at once over ONE compiled spec (every action / guard outcome of
+// the C06 input space), each with its own state, messages and control: no two accesses of the engine to
+// shared memory, one of them a write, are unordered (the executor's happens-before detector: what
+// `go test -race` reports, here for every explored spec and input rather than one schedule of one test).
+func VerifC12Concurrent() {
+	verif.MapOrderInsertion(true)
+	o, msgOpts := c06Opts()
+	b, st, msgs, ctl, props := c06Inputs(o, msgOpts)
+	var wg sync.WaitGroup
+	wg.Add(2)
+	for i := 0; i < 2; i++ {
+		mine := st.Copy()
+		if mine.Bs == nil && st.Bs != nil {
+			mine.Bs = match.NewBindings()
+		}
+		go func() {
+			defer wg.Done()
+			defer func() { recover() }() // (crashes are C07's subject)
+			b.spec.Walk(context.Background(), mine, msgs, ctl, props.Copy())
+		}()
+	}
+	wg.Wait()
+	for _, r := range verif.RaceReports() {
+		verif.Note("race: " + r)
+		verif.Assert("no-data-race", false)
+	}
+	verif.Reach("concurrent-done")
 }
